@@ -9,6 +9,16 @@ Ltac len :=
   repeat (rewrite app_length || rewrite firstn_length || rewrite skipn_length || rewrite repeat_length);
   cbn [length]; lia.
 
+(* lia with the quantified hypotheses (induction hypotheses, specifications of
+   the recursive calls) removed from its view: they make it erratic *)
+Ltac flia :=
+  repeat match goal with
+         | H : ?T |- _ =>
+             lazymatch T with
+             | forall x : ?A, _ => lazymatch type of A with Prop => fail | _ => clear H end
+             end
+         end; lia.
+
 Lemma firstn_app_at {A} (l r : list A) k k' : (k = length l + k')%nat -> firstn k (l ++ r) = l ++ firstn k' r.
 Proof. intros ->. rewrite firstn_app_r by lia. f_equal. f_equal. lia. Qed.
 Lemma skipn_app_at {A} (l r : list A) k k' : (k = length l + k')%nat -> skipn k (l ++ r) = skipn k' r.
@@ -462,13 +472,13 @@ Proof.
   assert (Done : forall z i, (m <= i)%nat -> length z = (m + n)%nat -> words_ok z = true ->
             val z = val (firstn i x) * val y ->
             length z = (m + n)%nat /\ words_ok z = true /\ val z = val x * val y).
-  { intros z i Hi Lz Oz Vz. rewrite firstn_all2 in Vz by lia. now repeat split. }
+  { intros z i Hi Lz Oz Vz. rewrite firstn_all2 in Vz by flia. now repeat split. }
   induction fuel as [|f IH]; intros z i Hf Lz Oz Vz; cbn [mul_blocks].
-  - cbv zeta. apply (Done z i); (assumption || lia).
+  - cbv zeta. apply (Done z i); (assumption || flia).
   - cbv zeta. destruct (skipn i x) as [|w xs'] eqn:Exs.
-    + apply (Done z i); try assumption. apply (f_equal (@length Z)) in Exs. rewrite skipn_length in Exs. cbn in Exs. lia.
+    + apply (Done z i); try assumption. apply (f_equal (@length Z)) in Exs. rewrite skipn_length in Exs. cbn in Exs. flia.
     + assert (Hi : (i < m)%nat).
-      { apply (f_equal (@length Z)) in Exs. rewrite skipn_length in Exs. cbn in Exs. lia. }
+      { apply (f_equal (@length Z)) in Exs. rewrite skipn_length in Exs. cbn in Exs. flia. }
       rewrite <- Exs. clear Exs w xs'.
       set (xs := skipn i x). set (bi := firstn k xs). set (xi := norm bi).
       assert (Oxs : words_ok xs = true) by (now apply words_ok_skipn).
@@ -477,55 +487,66 @@ Proof.
       assert (Vxi : val xi = val bi) by apply val_norm.
       assert (Lbi : (length bi <= k /\ i + length bi <= m)%nat) by (unfold bi, xs; len).
       assert (Lxi : (length xi <= length bi)%nat).
-      { pose proof (zlen_norm_le bi). unfold zlen in *. unfold xi. lia. }
+      { pose proof (zlen_norm_le bi). unfold zlen in *. unfold xi. flia. }
       pose proof (val_bounds' bi Obi) as Bbi.
       (* firstn (i+k) x = firstn i x ++ bi *)
       assert (Vnext : val (firstn (i + k) x) = val (firstn i x) + Bp i * val bi).
       { rewrite (val_split i (firstn (i + k) x)) by len.
-        rewrite firstn_firstn' by lia. unfold bi, xs. now rewrite firstn_skipn_comm'. }
+        rewrite firstn_firstn' by flia. unfold bi, xs. now rewrite firstn_skipn_comm'. }
       pose proof (val_firstn_le (i + k) x Ox) as Hle.
       pose proof (val_firstn_le i x Ox) as Hle0.
       pose proof (val_bounds' x Ox) as Bx. rewrite Lx in Bx.
-      pose proof (val_nonneg y0 Oy0). pose proof (val_nonneg y1 Oy1).
-      pose proof (Bp_pos i). pose proof (Bp_pos k). pose proof (Bp_pos (length bi)).
-      assert (Hxy : val x * val y < Bp (m + n)) by (rewrite Bp_add; apply mul_lt_bounds; lia).
+      pose proof (val_nonneg y0 Oy0) as Hy0. pose proof (val_nonneg y1 Oy1) as Hy1.
+      pose proof (Bp_pos i) as Hpi. pose proof (Bp_pos k) as Hpk.
+      assert (HX : val (firstn i x) + Bp i * val bi <= val x) by (rewrite <- Vnext; exact (proj2 Hle)).
+      assert (Hxy : val x * val y < Bp (length z)).
+      { rewrite Lz, Bp_add. apply mul_lt_bounds; assumption. }
+      pose proof (val_bounds' y1 Oy1) as By1.
       (* t = xi * y0 at i *)
-      rewrite (Hmul xi y0 Oxi Oy0) by lia.
+      assert (F1 : (length xi + length y0 < F)%nat) by (clear - Lxi Lbi Ly0 HF1; lia).
+      rewrite (Hmul xi y0 Oxi Oy0 F1).
       set (t1 := of_Z (val xi * val y0)).
       assert (Vt1 : val t1 = val bi * val y0).
-      { unfold t1. rewrite val_of_Z by (rewrite Vxi; apply Z.mul_nonneg_nonneg; lia). now rewrite Vxi. }
+      { unfold t1. rewrite val_of_Z by (rewrite Vxi; apply Z.mul_nonneg_nonneg; [exact (proj1 Bbi) | exact Hy0]).
+        now rewrite Vxi. }
       assert (Lt1 : (length t1 <= length bi + k)%nat).
-      { unfold t1. apply length_of_Z_le. rewrite Vxi, Bp_add. apply mul_lt_bounds; lia. }
+      { unfold t1. apply length_of_Z_le. rewrite Vxi, Bp_add. apply mul_lt_bounds; assumption. }
       assert (Ot1 : words_ok t1 = true) by apply words_ok_of_Z.
-      destruct (decAddAt_spec z t1 i Oz Ot1 ltac:(lia)) as (Lz1 & Oz1 & _).
+      assert (Hl1 : (i + length t1 <= length z)%nat) by (clear - Lt1 Lbi Lz Hk; lia).
+      destruct (decAddAt_spec z t1 i Oz Ot1 Hl1) as (Lz1 & Oz1 & _).
       assert (Vz1 : val (decAddAt z t1 i) = val z + Bp i * val t1).
-      { apply decAddAt_exact; try assumption; try lia. rewrite Lz, Vz, Vt1.
-        apply (acc_bound1 _ _ _ (val y1) _ (val x) _ _ (Bp k)); try assumption; lia. }
+      { apply (decAddAt_exact z t1 i Oz Ot1 Hl1). rewrite Vz, Vt1.
+        exact (acc_bound1 _ _ _ _ _ _ _ _ _ (proj1 Hle0) (proj1 Bbi) Hy0 Hy1 Hpi Hpk Vy HX Hxy). }
       set (z1 := decAddAt z t1 i) in *.
       (* t = xi * y1 at i + k *)
-      rewrite (Hmul xi y1 Oxi Oy1) by lia.
+      assert (F2 : (length xi + length y1 < F)%nat) by (clear - Lxi Lbi Ly1 HF2; lia).
+      rewrite (Hmul xi y1 Oxi Oy1 F2).
       set (t2 := of_Z (val xi * val y1)).
-      pose proof (val_bounds' y1 Oy1) as By1.
       assert (Vt2 : val t2 = val bi * val y1).
-      { unfold t2. rewrite val_of_Z by (rewrite Vxi; apply Z.mul_nonneg_nonneg; lia). now rewrite Vxi. }
+      { unfold t2. rewrite val_of_Z by (rewrite Vxi; apply Z.mul_nonneg_nonneg; [exact (proj1 Bbi) | exact Hy1]).
+        now rewrite Vxi. }
       assert (Lt2 : (length t2 <= length bi + length y1)%nat).
-      { unfold t2. apply length_of_Z_le. rewrite Vxi, Bp_add. apply mul_lt_bounds; lia. }
+      { unfold t2. apply length_of_Z_le. rewrite Vxi, Bp_add. apply mul_lt_bounds; assumption. }
       assert (Ot2 : words_ok t2 = true) by apply words_ok_of_Z.
-      destruct (decAddAt_spec z1 t2 (i + k) Oz1 Ot2 ltac:(lia)) as (Lz2 & Oz2 & _).
+      assert (Hl2 : (i + k + length t2 <= length z1)%nat) by (clear - Lt2 Lbi Lz Lz1 Ly1; lia).
+      destruct (decAddAt_spec z1 t2 (i + k) Oz1 Ot2 Hl2) as (Lz2 & Oz2 & _).
       assert (Vz2 : val (decAddAt z1 t2 (i + k)) = val z1 + Bp (i + k) * val t2).
-      { apply decAddAt_exact; try assumption; try lia. rewrite Lz1, Lz, Vz1, Vz, Vt1, Vt2, Bp_add.
-        apply (acc_bound2 _ _ _ _ _ (val x)); try assumption; lia. }
+      { apply (decAddAt_exact z1 t2 (i + k) Oz1 Ot2 Hl2). rewrite Lz1, Vz1, Vz, Vt1, Vt2, Bp_add.
+        exact (acc_bound2 _ _ _ _ _ _ _ _ _ (proj1 Hle0) (proj1 Bbi) Hy0 Hy1 Hpi Hpk Vy HX Hxy). }
       set (z2 := decAddAt z1 t2 (i + k)) in *.
       unfold xs. rewrite skipn_skipn'.
-      apply IH; try lia.
-      rewrite Vz2, Vz1, Vz, Vt1, Vt2, Vnext, Vy, Bp_add. ring.
+      apply IH.
+      * clear - Hf Hk. lia.
+      * clear - Lz2 Lz1 Lz. lia.
+      * exact Oz2.
+      * rewrite Vz2, Vz1, Vz, Vt1, Vt2, Vnext, Vy, Bp_add. ring.
 Qed.
 
 Theorem mul_f_spec thr junk : 1 <= thr -> forall fuel x y,
   (length x + length y < fuel)%nat -> words_ok x = true -> words_ok y = true ->
   mul_f fuel thr junk x y = of_Z (val x * val y).
 Proof.
-  intros Hthr. induction fuel as [|f IH]; intros x y Hf Hx Hy; [lia|].
+  intros Hthr. induction fuel as [|f IH]; intros x y Hf Hx Hy; [flia|].
   (* after the operand swap: m >= n *)
   assert (Core : forall x y, (length y <= length x)%nat -> (length x + length y <= f)%nat ->
             words_ok x = true -> words_ok y = true ->
@@ -552,27 +573,27 @@ Proof.
     { destruct y; [|discriminate]. cbn [val]. now rewrite Z.mul_0_r. }
     destruct (Nat.eqb_spec n 1) as [E1|E1].
     { destruct y as [|y0 [|? ?]]; try discriminate. cbn [hd].
-      apply words_ok_cons in Hy as [Hy0 _]. rewrite nat_mulAddWW_spec by (assumption || (pose proof B_pos; lia)).
-      rewrite val_single. f_equal. lia. }
+      apply words_ok_cons in Hy as [Hy0 _]. rewrite nat_mulAddWW_spec by (assumption || (pose proof B_pos; flia)).
+      rewrite val_single. f_equal. flia. }
     destruct (Z.ltb_spec (Z.of_nat n) thr) as [Hb|Hb].
     { destruct (basicMul_spec (mk junk (m + n)) x y Hx Hy) as (R & E & L & O & V).
-      fold m n in E, L. unfold mk in E. rewrite skipn_all2 in E by (rewrite repeat_length; lia).
+      fold m n in E, L. unfold mk in E. rewrite skipn_all2 in E by (rewrite repeat_length; flia).
       rewrite app_nil_r in E. unfold mk. rewrite E. now apply norm_eq_of_Z. }
-    pose proof (karatsubaLen_bounds n thr Hthr ltac:(lia)) as Hk.
+    pose proof (karatsubaLen_bounds n thr Hthr ltac:(flia)) as Hk.
     set (k := karatsubaLen n thr) in *.
     set (x0 := firstn k x). set (y0 := firstn k y).
     assert (Lx0 : length x0 = k) by (unfold x0; len).
     assert (Ly0 : length y0 = k) by (unfold y0; len).
     assert (Ox0 : words_ok x0 = true) by (now apply words_ok_firstn).
     assert (Oy0 : words_ok y0 = true) by (now apply words_ok_firstn).
-    destruct (karatsuba_spec k thr (mk junk (Nat.max (6 * k) (m + n))) x0 y0 ltac:(lia) Ox0 Oy0)
+    destruct (karatsuba_spec k thr (mk junk (Nat.max (6 * k) (m + n))) x0 y0 ltac:(flia) Ox0 Oy0)
       as (R & S & E & LR & LS & OR & VR).
-    { unfold mk. rewrite repeat_length, Ly0. lia. }
-    rewrite Ly0 in LR, LS. rewrite E. rewrite (firstn_app_exact R S (2 * k)) by lia.
+    { unfold mk. rewrite repeat_length, Ly0. flia. }
+    rewrite Ly0 in LR, LS. rewrite E. rewrite (firstn_app_exact R S (2 * k)) by flia.
     set (z := R ++ repeat 0 (m + n - 2 * k)).
     assert (Lz : length z = (m + n)%nat) by (unfold z; len).
     assert (Oz : words_ok z = true) by (unfold z; apply words_ok_app; split; [assumption | apply words_ok_repeat0]).
-    assert (Vz : val z = val x0 * val y0) by (unfold z; rewrite val_app', val_repeat0; lia).
+    assert (Vz : val z = val x0 * val y0) by (unfold z; rewrite val_app', val_repeat0; flia).
     destruct ((k <? n)%nat || negb (m =? n)%nat) eqn:Ebr.
     - assert (Hbr : (k < n \/ m <> n)%nat).
       { apply orb_true_iff in Ebr as [Hb1|Hb1]; [left; now apply Nat.ltb_lt in Hb1|].
@@ -580,7 +601,7 @@ Proof.
       set (y1 := skipn k y).
       assert (Oy1 : words_ok y1 = true) by (now apply words_ok_skipn).
       assert (Ly1 : (length y1 + k = n)%nat) by (unfold y1; len).
-      assert (Vy : val y = val y0 + Bp k * val y1) by (apply val_split; lia).
+      assert (Vy : val y = val y0 + Bp k * val y1) by (apply val_split; flia).
       pose proof (val_bounds' y0 Oy0) as By0. rewrite Ly0 in By0.
       pose proof (val_bounds' x0 Ox0) as Bx0. rewrite Lx0 in Bx0.
       pose proof (val_bounds' y1 Oy1) as By1.
@@ -588,27 +609,27 @@ Proof.
       pose proof (val_bounds' x Hx) as Bx. fold m in Bx.
       assert (Ox0n : words_ok (norm x0) = true) by (now apply words_ok_norm).
       assert (Lx0n : (length (norm x0) <= k)%nat).
-      { pose proof (zlen_norm_le x0). unfold zlen in *. lia. }
-      rewrite (IH (norm x0) y1) by (assumption || lia). rewrite val_norm.
+      { pose proof (zlen_norm_le x0). unfold zlen in *. flia. }
+      rewrite (IH (norm x0) y1) by (assumption || flia). rewrite val_norm.
       set (t := of_Z (val x0 * val y1)).
-      assert (Vt : val t = val x0 * val y1) by (unfold t; apply val_of_Z; apply Z.mul_nonneg_nonneg; lia).
+      assert (Vt : val t = val x0 * val y1) by (unfold t; apply val_of_Z; apply Z.mul_nonneg_nonneg; flia).
       assert (Lt : (length t <= k + length y1)%nat).
-      { unfold t. apply length_of_Z_le. rewrite Bp_add. apply mul_lt_bounds; lia. }
+      { unfold t. apply length_of_Z_le. rewrite Bp_add. apply mul_lt_bounds; flia. }
       assert (Ot : words_ok t = true) by apply words_ok_of_Z.
       pose proof (val_firstn_le k x Hx) as Hx0le. fold x0 in Hx0le.
       pose proof (Bp_pos k).
-      assert (Hxy : val x * val y < Bp (m + n)) by (rewrite Bp_add; apply mul_lt_bounds; lia).
-      destruct (decAddAt_spec z t k Oz Ot ltac:(lia)) as (Lz1 & Oz1 & _).
+      assert (Hxy : val x * val y < Bp (m + n)) by (rewrite Bp_add; apply mul_lt_bounds; flia).
+      destruct (decAddAt_spec z t k Oz Ot ltac:(flia)) as (Lz1 & Oz1 & _).
       assert (Vz1 : val (decAddAt z t k) = val z + Bp k * val t).
-      { apply decAddAt_exact; try assumption; try lia. rewrite Lz, Vz, Vt.
+      { apply decAddAt_exact; try assumption; try flia. rewrite Lz, Vz, Vt.
         assert (val x0 * val y0 + Bp k * (val x0 * val y1) = val x0 * val y) by (rewrite Vy; ring).
-        assert (val x0 * val y <= val x * val y) by (apply Z.mul_le_mono_nonneg_r; lia). lia. }
+        assert (val x0 * val y <= val x * val y) by (apply Z.mul_le_mono_nonneg_r; flia). flia. }
       destruct (mul_blocks_spec (mul_f f thr junk) f k x (norm y0) y1 y m n) with
-        (fuel := m) (z := decAddAt z t k) (i := k) as (Lr & Or & Vr); try assumption; try lia.
+        (fuel := m) (z := decAddAt z t k) (i := k) as (Lr & Or & Vr); try assumption; try flia.
       + intros a b Ha Hb' Hlen. apply IH; assumption.
       + reflexivity.
       + now apply words_ok_norm.
-      + pose proof (zlen_norm_le y0). unfold zlen in *. lia.
+      + pose proof (zlen_norm_le y0). unfold zlen in *. flia.
       + now rewrite val_norm.
       + now rewrite val_norm.
       + rewrite Vz1, Vz, Vt, Vy. fold x0. ring.
@@ -616,11 +637,11 @@ Proof.
     - apply orb_false_iff in Ebr as [Hb1 Hb2]. apply Nat.ltb_ge in Hb1.
       apply negb_false_iff in Hb2. apply Nat.eqb_eq in Hb2.
       apply norm_eq_of_Z; [assumption|]. rewrite Vz. unfold x0, y0.
-      rewrite !firstn_all2 by lia. reflexivity. }
+      rewrite !firstn_all2 by flia. reflexivity. }
   cbn [mul_f].
   destruct (Nat.ltb_spec (length x) (length y)).
-  - rewrite (Z.mul_comm (val x)). apply Core; (assumption || lia).
-  - apply Core; (assumption || lia).
+  - rewrite (Z.mul_comm (val x)). apply Core; (assumption || flia).
+  - apply Core; (assumption || flia).
 Qed.
 
 Theorem mul_spec thr junk x y : 1 <= thr -> words_ok x = true -> words_ok y = true ->
